@@ -120,6 +120,12 @@ class SimRun:
 
         def rec_algo(s, results, pipelines):
             sus, asg = orig_algo(s, results, pipelines)
+            if r.get('relabel'):
+                # a scheduler that labels its containers with another priority than the pipeline's (an external policy
+                # boosting old batch work, say): the label travels assignment -> container -> result
+                from eudoxia.utils import Priority
+                for a in asg:
+                    a.priority = Priority(a.priority.value % 3 + 1)
             pending['susp'] = [(cid(x.container_id), x.pool_id) for x in sus]
             pending['asg'] = [([w.gid[o] for o in a.ops], a.cpu, a.ram, PRIO_VAL[a.priority], a.pool_id) for a in asg]
             pending['asg_tick'] = len(me.ticks)       # the tick these decisions are for (not yet executed)
